@@ -8,6 +8,7 @@ package gldap
 
 import (
 	"context"
+	"crypto/tls"
 
 	ber "github.com/go-asn1-ber/asn1-ber"
 )
@@ -78,18 +79,25 @@ func VDeleteExchange(id int64, dn string) *VExchange {
 }
 
 func VModifyExchange(id int64, dn string, op int64, typ string, vals []string) *VExchange {
-	set := refSet()
-	for _, v := range vals {
-		set.AppendChild(refOctet(v))
-	}
-	mod := refSeq()
-	mod.AppendChild(refOctet(typ))
-	mod.AppendChild(set)
-	ch := refSeq()
-	ch.AppendChild(refEnum(op))
-	ch.AppendChild(mod)
+	return VModifyExchangeN(id, dn, []int64{op}, []string{typ}, [][]string{vals})
+}
+
+// VModifyExchangeN: one Modify request carrying several changes.
+func VModifyExchangeN(id int64, dn string, ops []int64, typs []string, vals [][]string) *VExchange {
 	cseq := refSeq()
-	cseq.AppendChild(ch)
+	for i := range ops {
+		set := refSet()
+		for _, v := range vals[i] {
+			set.AppendChild(refOctet(v))
+		}
+		mod := refSeq()
+		mod.AppendChild(refOctet(typs[i]))
+		mod.AppendChild(set)
+		ch := refSeq()
+		ch.AppendChild(refEnum(ops[i]))
+		ch.AppendChild(mod)
+		cseq.AppendChild(ch)
+	}
 	return vExchange(refEnvelope(id, refApp(ApplicationModifyRequest, refOctet(dn), cseq), nil))
 }
 
@@ -154,3 +162,9 @@ func (x *VExchange) Responses() []VResponse {
 	}
 	return out
 }
+
+// VServerTLSConfig: the *tls.Config the server's listener was wrapped with (nil if plain).
+func VServerTLSConfig(s *Server) *tls.Config { return vTLSConfigOf(s.listener) }
+
+// VServerListening reports whether the server holds a listener.
+func VServerListening(s *Server) bool { return s.listener != nil }
